@@ -2,4 +2,4 @@ From Coq Require Extraction ExtrOcamlBasic.
 From Common Require Import Words.
 From Buffer Require Import BufferSpec BufferModel.
 Extraction Language OCaml.
-Extraction "model.ml" anchor step spec_step exposed after_end owns.
+Extraction "model.ml" anchor step spec_step hint_unsat exposed after_end owns.
